@@ -196,7 +196,7 @@ def interstitial_tags(cname):
 def sections(tier):
     S = run.Section
     secs = []
-    bud = 175 if tier == 'quick' else 3000
+    bud = 175 if tier == 'quick' else 1200
     cfgs = ['square-1', 'rect2-1'] if tier == 'quick' else ['square-1', 'rect2-1', 'sc-1', 'square-2', 'rumple2d-1']
     for cfg in cfgs:
         ncl = len(classes(hist.get_calc(cfg)))
